@@ -118,6 +118,27 @@ def reverse_job(lo, hi):
             except Exception as e:
                 res.fail('reverse:refused:%s' % mn, 'canonical text %r of legal halfword 0x%04x is refused: %s' % (line, h, str(e)[-160:]),
                          {'kind': 'text', 'source': line + '\n', 'halfword': h})
+    # the same lines with every register written through a register-alias constant (R_n = xN)
+    prelude = ''.join('R_%d = x%d\n' % (i, i) for i in range(32))
+    for i in range(0, len(legal), 1000):
+        chunk = legal[i:i + 1000]
+        lines = []
+        for h, mn, f in chunk:
+            parts = [str(f[k]) if k == 'imm' else 'R_%d' % f[k] for k in rvref.C_OPERANDS[mn]]
+            lines.append((mn + ' ' + ', '.join(parts)).strip())
+        res.evaluations += len(chunk)
+        try:
+            out = bytes(asm.assemble(prelude + '\n'.join(lines) + '\n'))
+        except Exception as e:
+            res.fail('reverse:alias:refused', 'canonical text with register aliases is refused: %s' % str(e)[-200:], {'kind': 'text', 'source': prelude + lines[0] + '\n', 'halfword': chunk[0][0]})
+            continue
+        for j, (h, mn, f) in enumerate(chunk):
+            got = struct.unpack_from('<H', out, 2 * j)[0] if len(out) >= 2 * j + 2 else None
+            if got != h:
+                res.fail('reverse:alias:%s' % mn, '%r (registers through alias constants) assembles to %r, legal halfword is 0x%04x' % (lines[j], got, h),
+                         {'kind': 'text', 'source': prelude + lines[j] + '\n', 'halfword': h})
+            else:
+                res.nontrivial_count += 1
     if legal:
         h, mn, f = legal[len(legal) // 2]
         res.sample({'reverse': '0x%04x' % h, 'text': canonical_text(mn, f)})
